@@ -112,6 +112,8 @@ class Ctr:
                 "labels": [[b64e(k), b64e(v)] for k, v in self.labels.items()], "events": self.stream(faulty),
                 "open_fail": bool(faulty and self.fault and self.fault[0] == "open"),
                 # the class of the daemon's answer when the log cannot be opened: whatever it is, it is a failure of the query
+                # one reader in three reports an error when it is closed: the others are closed all the same
+                "close_err": sum(self.id.encode()) % 3 == 0,
                 "open_fail_class": ["generic", "notfound", "eof", "canceled", "unavailable", "ueof"][sum(self.id.encode()) % 6]}
 
     def coq(self, faulty=True):
